@@ -222,6 +222,16 @@ def main():
             else:
                 cov['discharged'] += 1
 
+    # 5b. additional obligations of the property (e.g. self-test of the effect analyser)
+    if hasattr(mod, 'extra_obligations'):
+        try:
+            for (name, ok, detail) in mod.extra_obligations(tier, rng):
+                cov['obligations'] += 1
+                if ok: cov['discharged'] += 1
+                else: broken.append((name, detail))
+        except Exception as e:
+            broken.append(('extra-obligations', '%s: %s' % (type(e).__name__, e)))
+
     # 6. the property statement on the real code (always on a stratified set; widened when something broke)
     widen = bool(broken)
     known = load_known()
